@@ -4,12 +4,19 @@
 //! and therefore has 'unsafe' code.
 
 use std::time::Duration;
-use std::sync::atomic::{AtomicBool, Ordering};
+use std::sync::atomic::{AtomicBool, AtomicUsize, Ordering};
 use thread_timer::ThreadTimer;
 
 use super::logic_var::*;
 
 static SUIRON_STOP_QUERY: AtomicBool = AtomicBool::new(false);
+
+// Identifies the timer which is currently allowed to stop the query.
+// thread_timer's cancel() can fail (it returns NotWaiting if it loses a
+// race with the timer thread), in which case the timer fires anyway. A
+// timer which was cancelled must not stop a later query, so cancel_timer()
+// changes this ID, and the timer's thunk does nothing if the ID has changed.
+static SUIRON_TIMER_ID: AtomicUsize = AtomicUsize::new(0);
 
 /// Create a timer with a timeout in milliseconds.
 ///
@@ -28,9 +35,14 @@ static SUIRON_STOP_QUERY: AtomicBool = AtomicBool::new(false);
 /// ```
 pub fn start_query_timer(milliseconds: u64) -> ThreadTimer {
     SUIRON_STOP_QUERY.store(false, Ordering::SeqCst);
+    let timer_id = SUIRON_TIMER_ID.fetch_add(1, Ordering::SeqCst).wrapping_add(1);
     let timer = ThreadTimer::new();
     timer.start(Duration::from_millis(milliseconds),
-                move || { stop_query(); }).unwrap();
+                move || {
+                    if SUIRON_TIMER_ID.load(Ordering::SeqCst) == timer_id {
+                        stop_query();
+                    }
+                }).unwrap();
     return timer;
 } // start_query_timer()
 
@@ -46,6 +58,8 @@ pub fn start_query_timer(milliseconds: u64) -> ThreadTimer {
 /// cancel_timer(timer);
 /// ```
 pub fn cancel_timer(timer: ThreadTimer) {
+    // If the timer cannot be cancelled, it is ignored when it fires.
+    SUIRON_TIMER_ID.fetch_add(1, Ordering::SeqCst);
     match timer.cancel() {
         Ok(_) => {},
         Err(_) => {},
